@@ -30,7 +30,7 @@ QUICK = {
     # a publication's predecessor snapshot is part of the state: the same snapshot reached through an update that was still in the
     # update map and through one that had been merged (the rebuild of the main map must prefer the update map) are both replayed
     "F-merge": consts(SrcSeq="<- Src1", MaxVer=2, MaxCalls=3, MaxEnv=2, MaxTicks=0, WithWaiter=False, PREGHOST=True),
-    "D-reappear": consts(SrcSeq="<- Src1", ProvSeq="<- Prov1", MaxVer=1, MaxCalls=5, MaxEnv=3, MaxTicks=1, WithWaiter=False),
+    "D-reappear": consts(SrcSeq="<- Src1", ProvSeq="<- Prov1", MaxVer=1, MaxCalls=5, MaxEnv=3, MaxTicks=1, WithWaiter=False, PREGHOST=True),
 }
 THOROUGH = {
     "T1-2x2": consts(MaxCalls=4, MaxEnv=1, MaxTicks=1),
